@@ -2,6 +2,7 @@ package props
 
 import (
 	"go/types"
+	"reflect"
 	"sort"
 	"strings"
 
@@ -883,7 +884,7 @@ func c01Primitives(c *Ctx, tr *an.Tracer) {
 							setsErr = true
 						}
 					}
-					if ret, ok := in.(*ssa.Return); ok && len(ret.Results) == 1 {
+					if ret, ok := an.AsReturn(in); ok && len(ret.Results) == 1 {
 						if k, ok := an.RetVal(ret, 0).(*ssa.Const); ok {
 							if setsErr {
 								got["error"] = true
@@ -1130,6 +1131,9 @@ func reachesBlock(from, to *ssa.BasicBlock, seen map[*ssa.BasicBlock]bool) bool 
 // the size and cannot be evaluated from the size and the bytes left alone is reported as undecided.
 func c01Admission(c *Ctx) {
 	r := c.R
+	// the depth bound that protects the decoder (C15 R15.D) must not refuse honest input either: a level is given
+	// back on every exit, so the count follows the nesting and not the number of values decoded
+	c.depthBalanced("R01.V")
 	// an empty read is no read: bytes.Reader.Read answers io.EOF at the end of the input even for an empty
 	// buffer, so a zero-length field that happens to be the last thing in a message (the empty body of the last
 	// message of a container) would set the sticky error on input the encoder itself produced
@@ -1257,7 +1261,7 @@ func (c *Ctx) marshalOwnsResult(rule string) {
 	tr := an.NewTracer()
 	n := 0
 	for _, b := range mf.Blocks {
-		ret, ok := b.Instrs[len(b.Instrs)-1].(*ssa.Return)
+		ret, ok := an.AsReturn(b.Instrs[len(b.Instrs)-1])
 		if !ok || len(ret.Results) != 2 || an.IsNilConst(an.RetVal(ret, 0)) {
 			continue
 		}
@@ -1342,6 +1346,54 @@ func c01EnumByName(c *Ctx) {
 		}
 	}
 	r.Check(guarded, "R01.E", "enum-by-name", c.pos(sets[0].Pos()), "the value is set from the id read from the wire, behind a test against the registry of enum members")
+	ok, why := enumLeavesBeforeWalk(c)
+	r.Check(ok, "R01.E", "enum-by-name:leaves-before-the-struct-walk", c.pos(f.Pos()), "once the destination is known to be a uint32 (an enum), decodeObject returns - member or not - before the code that walks struct fields: "+why)
+}
+
+// enumLeavesBeforeWalk: in decodeObject, behind the true edge of the test `e.Kind() == reflect.Uint32`, neither a
+// panic nor the struct walk (NumField) is reachable.
+func enumLeavesBeforeWalk(c *Ctx) (bool, string) {
+	f := c.P.Func(load.TLPkg, "*Decoder", "decodeObject")
+	if f == nil {
+		return false, "decodeObject not found"
+	}
+	var edge *an.Edge
+	for _, i := range an.Ifs(f) {
+		cd, ok := an.Classify(i)
+		if !ok || cd.Kind != "eq" {
+			continue
+		}
+		x, y := cd.X, cd.Y
+		if _, isConst := x.(*ssa.Const); isConst {
+			x, y = y, x
+		}
+		call, isCall := x.(*ssa.Call)
+		k, isK := an.ConstInt(y)
+		if isCall && isK && an.CalleeName(call.Common()) == "(reflect.Value).Kind" && k == int64(reflect.Uint32) {
+			e := cd.EdgeWhen(true)
+			edge = &e
+		}
+	}
+	if edge == nil {
+		return false, "no test of the destination's kind against Uint32"
+	}
+	reach := an.ReachFrom(f, *edge, nil)
+	for _, b := range f.Blocks {
+		if !reach[b] {
+			continue
+		}
+		for _, in := range b.Instrs {
+			switch x := in.(type) {
+			case *ssa.Panic:
+				return false, "the panic at " + c.pos(x.Pos()) + " is reachable for an enum destination (an id that is not a member falls through to the struct code)"
+			case *ssa.Call:
+				if n := an.CalleeName(x.Common()); n == "(reflect.Value).NumField" || n == "invoke:(reflect.Type).NumField" {
+					return false, "the struct walk at " + c.pos(x.Pos()) + " is reachable for an enum destination"
+				}
+			}
+		}
+	}
+	return true, ""
 }
 
 // c01HintQueue (R01.Q): nested bare vectors take their hints in pre-order; the outer hint has to be gone from the
